@@ -2,6 +2,7 @@
 C20 — TCP and WebSocket transports are behaviourally equivalent. Property theorems only (view WsMap).
 -/
 import OAP.Model.Client.WsMap
+import OAP.Proofs.WsReading
 namespace OAP.C20
 open OAP OAP.WsMap
 
@@ -59,5 +60,312 @@ example : WFScript (fun b => if b = [7] then some 7 else none) [.frame [1], .hea
   simp at h
   obtain ⟨rfl, rfl⟩ := h
   rfl
+
+end OAP.C20
+
+/- ===== to append to OAP/Props/C20.lean (after `end OAP.C20`); add to the imports at the top of that file:
+     import OAP.Proofs.WsReading
+   (new files: OAP/Model/Client/WsReading.lean, OAP/Proofs/WsReading.lean; add both to OAP.lean) ===== -/
+
+/-! ## C20 at reader level: the WebSocket reader goroutine against the TCP reader goroutine
+
+`(*wsConn).reading` with the ping / pong / close handlers gorilla runs on it (model: OAP/Model/Client/WsReading.lean)
+against `(*tcpConn).reading` (model: OAP/Model/Client/Reading.lean, C03 Layer 5). Both hand packets to the same
+`addPacket`; "observable" here = the packets handed over, in order, and whether / why the reader ended. -/
+namespace OAP.C20
+open OAP OAP.Frame OAP.WsReading
+
+/-- the WebSocket reader never panics — decoder, handlers, packet constructors — whatever arrives and in whatever order,
+PROVIDED the context's codec can marshal `control.Close` (protobuf or JSON) -/
+theorem ws_reader_total (v : Ver) (gz : GzOracle) (codec : UInt8) (env : Env)
+    (hclose : ∀ code reason, ∃ b, env.closeBody code reason = .ok b) (evs : List WsEvent) (w : String) :
+    (reading v gz codec env evs).stopped ≠ some (.panic w) :=
+  WsReading.ws_reader_total v gz codec env hclose evs w
+
+/-- … and the proviso is needed: the ONLY way it panics is a close frame arriving while it is still reading, with a
+codec for which `MustNewPush` cannot marshal the close message (`Handshake.Codec` neither 1 nor 2) -/
+theorem ws_reader_panic_only_from_close (v : Ver) (gz : GzOracle) (codec : UInt8) (env : Env) (evs : List WsEvent) (w : String)
+    (h : (reading v gz codec env evs).stopped = some (.panic w)) :
+    ∃ pre code reason post, evs = pre ++ .close code reason :: post ∧
+      (reading v gz codec env pre).stopped = none ∧
+      (env.closeBody code reason = .err w ∨ env.closeBody code reason = .panic w) :=
+  WsReading.ws_reader_panic_only_from_close v gz codec env evs w h
+
+/-- a text message is handled exactly like the binary message with the same payload -/
+theorem ws_text_is_binary (v : Ver) (gz : GzOracle) (codec : UInt8) (env : Env) (evs : List WsEvent) :
+    reading v gz codec env (evs.map asBinary) = reading v gz codec env evs :=
+  reading_text_eq_binary v gz codec env evs
+
+/-- RESPONSES, PUSHES, REQUESTS ARE THE SAME OVER BOTH. For any list of valid frames of the published layout: the
+WebSocket reader given one frame per binary message and the TCP reader given the concatenation of the same frames under
+ANY segmentation into socket reads hand the same packets, in the same order, to the client — the i-th is what
+`UnpackBytes` returns on the i-th frame — and neither reports an error -/
+theorem ws_reader_eq_tcp_on_frames (v : Ver) (gz : GzOracle) (codec : UInt8) (env : Env) (fs : List Spec.Frame)
+    (hv : ∀ f ∈ fs, ∃ content ps, ValidFrame v gz f content ps)
+    (rb0 : Ring) (wf : rb0.WF) (he : rb0.abs = [])
+    (chunks : List Bytes) (hc : chunks.flatten = (fs.map (Spec.encode v)).flatten) :
+    (reading v gz codec env ((fs.map (Spec.encode v)).map .binary)).pkts = (Reading.reading v gz codec rb0 chunks).pkts ∧
+    (reading v gz codec env ((fs.map (Spec.encode v)).map .binary)).stopped = none ∧
+    (Reading.reading v gz codec rb0 chunks).stopped = none ∧
+    Forall₂ (fun f q => unpackBytes v gz codec (Spec.encode v f) = .ok q) fs
+      (reading v gz codec env ((fs.map (Spec.encode v)).map .binary)).pkts :=
+  WsReading.ws_reader_eq_tcp_on_frames v gz codec env fs hv rb0 wf he chunks hc
+
+/-- ERRORS: a message the decoder rejects closes the WebSocket connection (as an undecodable frame closes the TCP one):
+nothing is delivered for it nor for anything after it, the verdict is the decoder's error -/
+theorem ws_reader_bad_message_closes (v : Ver) (gz : GzOracle) (codec : UInt8) (env : Env)
+    (pre post : List WsEvent) (d : Bytes) (e : String)
+    (hopen : (reading v gz codec env pre).stopped = none) (hbad : unpackBytes v gz codec d = .err e) :
+    (reading v gz codec env (pre ++ .binary d :: post)).obs = ((reading v gz codec env pre).pkts, some (.decode e)) :=
+  WsReading.ws_reader_bad_message_closes v gz codec env pre post d e hopen hbad
+
+/-- … the TCP side in the same shape: after valid frames, ANY continuation `rest` of the byte stream is handled as the
+read loop handles it from a fresh context — its packets, and its error as the verdict (`run`: the loop of C03 Layer 3,
+equal to `feed` on every chunking) -/
+theorem tcp_reader_frames_then (v : Ver) (gz : GzOracle) (codec : UInt8) (fs : List Spec.Frame) (qs : List Packet)
+    (h : Forall₂ (Denotes v gz codec) fs qs) (rest : Bytes)
+    (rb0 : Ring) (wf : rb0.WF) (he : rb0.abs = [])
+    (chunks : List Bytes) (hc : chunks.flatten = (fs.map (Spec.encode v)).flatten ++ rest) :
+    (Reading.reading v gz codec rb0 chunks).obs =
+      (qs ++ (run v gz codec rest).1,
+       if (run v gz codec rest).2.1 = .more then none else some (run v gz codec rest).2.1) :=
+  WsReading.tcp_reader_frames_then v gz codec fs qs h rest rb0 wf he chunks hc
+
+/-- … and on a frame with a type nibble that is not request / response / push both readers deliver the same packets
+before it, nothing after it, and end with the same error -/
+theorem both_readers_close_on_unknown_type (v : Ver) (gz : GzOracle) (codec : UInt8) (env : Env) (fs : List Spec.Frame)
+    (qs : List Packet) (h : Forall₂ (Denotes v gz codec) fs qs) (b : UInt8) (t : Bytes)
+    (hk : isUnknown (ubType v b) = true) (post : List WsEvent)
+    (rb0 : Ring) (wf : rb0.WF) (he : rb0.abs = [])
+    (chunks : List Bytes) (hc : chunks.flatten = (fs.map (Spec.encode v)).flatten ++ b :: t) :
+    (reading v gz codec env ((fs.map (Spec.encode v)).map .binary ++ .binary (b :: t) :: post)).obs =
+      (qs, some (.decode "invalid packet type")) ∧
+    (Reading.reading v gz codec rb0 chunks).obs = (qs, some (.err "invalid packet type")) :=
+  WsReading.both_readers_close_on_unknown_type v gz codec env fs qs h b t hk post rb0 wf he chunks hc
+
+/-- PING / PONG / CLOSE ARE SURFACED LIKE THE CORRESPONDING FRAMES. The packets the three handlers build are exactly
+what every decoder of the project returns for the heartbeat-request / heartbeat-response / close FRAME of the layout -/
+theorem ws_control_packets_are_frame_packets (v : Ver) (gz : GzOracle) (codec : UInt8) (hbId : Bytes → Option UInt32)
+    (rid : UInt32) (body : Bytes) (hb : body.length < 16777216) :
+    unpackBytes v gz codec (Spec.encode v (hbReqFrame rid body)) = .ok (pingPacket codec rid body) ∧
+    unpackBytes v gz codec (Spec.encode v (hbRespFrame ((hbId body).getD 0) 0 body)) = .ok (pongPacket codec hbId body) ∧
+    unpackBytes v gz codec (Spec.encode v (closeFrame body)) = .ok (closePacket codec body) :=
+  ⟨(hbReq_denotes v gz codec rid body hb).oneshot,
+   (hbResp_denotes v gz codec _ 0 body hb).oneshot,
+   (close_denotes v gz codec body hb).oneshot⟩
+
+/-- … and `Pack` — the codec's own encoder, compression off — emits exactly those frames for them -/
+theorem ws_control_packets_pack (v : Ver) (gz : GzOracle) (codec : UInt8) (hbId : Bytes → Option UInt32)
+    (rid : UInt32) (body : Bytes) (hb : body.length < 16777216) :
+    (pack v gz (pingPacket codec rid body) 0).map (·.1) = .ok (Spec.encode v (hbReqFrame rid body)) ∧
+    (pack v gz (pongPacket codec hbId body) 0).map (·.1) = .ok (Spec.encode v (hbRespFrame ((hbId body).getD 0) 0 body)) ∧
+    (pack v gz (closePacket codec body) 0).map (·.1) = .ok (Spec.encode v (closeFrame body)) := by
+  have hg : ∀ n : Nat, gzipCond v 0 n = false := by intro n; cases v <;> rfl
+  have hm : Metadata.marshalValues (Metadata.sortPairs []) 65535 = [] := by
+    simp [Metadata.marshalValues, Metadata.sortPairs]
+  have key : ∀ (p : Packet) (f : Spec.Frame), p.type ≠ .other → p.gzip = false → p.body.length < 16777216 →
+      Spec.encode v (specOf v p) = Spec.encode v f → (pack v gz p 0).map (·.1) = .ok (Spec.encode v f) := by
+    intro p f ht hz hl hf
+    have hpre : packPre v gz p 0 = .ok p := by
+      unfold packPre; rw [hg]
+      simp only [Bool.false_eq_true, ↓reduceIte]
+      cases p; simp_all
+    have hok := (packTail_isOk v p).mpr ⟨ht, by omega⟩
+    rw [pack_eq, hpre, Res.ok_bind]
+    cases htl : packTail v p with
+    | ok r =>
+      obtain ⟨bs, p'⟩ := r
+      obtain ⟨rfl, _, _, h4⟩ := packTail_ok v p p' bs htl
+      simp only [Res.map]; rw [h4, hf]
+    | err e => rw [htl] at hok; cases hok
+    | panic w => rw [htl] at hok; cases hok
+  refine ⟨key _ _ (by simp [pingPacket]) rfl hb ?_, key _ _ (by simp [pongPacket]) rfl hb ?_, key _ _ (by simp [closePacket]) rfl hb ?_⟩
+  · cases v <;> simp [Spec.encode, specOf, pingPacket, hbReqFrame, WsReading.cmdHeartbeat, WsMap.cmdHeartbeat, Metadata.marshalMap, hm] <;> rfl
+  · cases v <;> simp [Spec.encode, specOf, pongPacket, hbRespFrame, WsReading.cmdHeartbeat, WsMap.cmdHeartbeat, Metadata.marshalMap, hm] <;> rfl
+  · cases v <;> simp [Spec.encode, specOf, closePacket, closeFrame, WsReading.cmdClose, WsMap.cmdClose, Metadata.marshalMap, hm] <;> rfl
+
+/-- THE SAME PEER SCRIPT OVER BOTH TRANSPORTS. Data frames, peer heartbeats and answers to the client's heartbeats in any
+order; over WebSocket as binary messages / ping / pong control frames, over TCP as frames cut into socket reads in any
+way. Both readers stay open and deliver the same number of packets in the same order; the i-th packets are equal except
+(`SamePacket`): the request id of a PEER HEARTBEAT is drawn locally over WebSocket and is the peer's over TCP; request id
+and status of a HEARTBEAT ANSWER are (heartbeat id in the payload — 0 if none —, 0) over WebSocket and the frame header's
+over TCP. Every ping payload is written back as a pong, in order. -/
+theorem ws_script_eq_tcp (v : Ver) (gz : GzOracle) (codec : UInt8) (env : Env) (hpong : ∀ k, env.pongOk k = true)
+    (items : List Item) (hok : ∀ i ∈ items, i.Ok v gz)
+    (rb0 : Ring) (wf : rb0.WF) (he : rb0.abs = [])
+    (chunks : List Bytes) (hc : chunks.flatten = ((items.map Item.tcp).map (Spec.encode v)).flatten) :
+    Forall₂ (SamePacket env.hbId) (reading v gz codec env (items.map (Item.ws v))).pkts
+      (Reading.reading v gz codec rb0 chunks).pkts ∧
+    (reading v gz codec env (items.map (Item.ws v))).stopped = none ∧
+    (Reading.reading v gz codec rb0 chunks).stopped = none ∧
+    (reading v gz codec env (items.map (Item.ws v))).pongs = pingBodies items :=
+  WsReading.ws_script_eq_tcp v gz codec env hpong items hok rb0 wf he chunks hc
+
+/-- … for a GENUINE script — no peer heartbeats; every heartbeat answer has status 0 and its frame header carries the
+heartbeat id of its body, "carrying the heartbeat id as request id" — the delivered packets are EQUAL -/
+theorem ws_script_eq_tcp_genuine (v : Ver) (gz : GzOracle) (codec : UInt8) (env : Env)
+    (items : List Item) (hok : ∀ i ∈ items, i.Ok v gz) (hg : ∀ i ∈ items, i.Genuine env.hbId)
+    (rb0 : Ring) (wf : rb0.WF) (he : rb0.abs = [])
+    (chunks : List Bytes) (hc : chunks.flatten = ((items.map Item.tcp).map (Spec.encode v)).flatten) :
+    (reading v gz codec env (items.map (Item.ws v))).obs = ((Reading.reading v gz codec rb0 chunks).pkts, none) ∧
+    (Reading.reading v gz codec rb0 chunks).stopped = none :=
+  WsReading.ws_script_eq_tcp_genuine v gz codec env items hok hg rb0 wf he chunks hc
+
+/-- CLOSE. After such a script the peer closes — close control frame (code, reason) over WebSocket, close FRAME with the
+same marshalled `control.Close` over TCP: both readers deliver one more packet, the SAME close packet; the WebSocket
+reader then ends with the close error at once (whatever follows is not read), the TCP reader is still reading -/
+theorem ws_close_eq_tcp (v : Ver) (gz : GzOracle) (codec : UInt8) (env : Env) (hpong : ∀ k, env.pongOk k = true)
+    (items : List Item) (hok : ∀ i ∈ items, i.Ok v gz) (code : Nat) (reason b : Bytes)
+    (hb : env.closeBody code reason = .ok b) (hbl : b.length < 16777216) (post : List WsEvent)
+    (rb0 : Ring) (wf : rb0.WF) (he : rb0.abs = [])
+    (chunks : List Bytes)
+    (hc : chunks.flatten = (((items.map Item.tcp) ++ [closeFrame b]).map (Spec.encode v)).flatten) :
+    ∃ W T, Forall₂ (SamePacket env.hbId) W T ∧
+      (reading v gz codec env (items.map (Item.ws v) ++ .close code reason :: post)).obs =
+        (W ++ [closePacket codec b], some (.peerClose code reason)) ∧
+      (Reading.reading v gz codec rb0 chunks).obs = (T ++ [closePacket codec b], none) :=
+  WsReading.ws_close_eq_tcp v gz codec env hpong items hok code reason b hb hbl post rb0 wf he chunks hc
+
+/-! ### where the readers differ: one WebSocket message = ONE one-shot decode -/
+
+/-- bytes after a frame inside one message (verify bit clear) are dropped silently and the reader goes on; on TCP they
+are the continuation of the stream -/
+theorem trailing_bytes_ws_vs_tcp (v : Ver) (gz : GzOracle) (codec : UInt8) (env : Env) (f : Spec.Frame) (content : Bytes)
+    (ps : List Metadata.Pair) (hv : ValidFrame v gz f content ps) (h0 : f.verify ≠ 1) (rest : Bytes)
+    (rb0 : Ring) (wf : rb0.WF) (he : rb0.abs = [])
+    (chunks : List Bytes) (hc : chunks.flatten = Spec.encode v f ++ rest) :
+    (reading v gz codec env [.binary (Spec.encode v f ++ rest)]).obs = ([packetOf f codec content ps], none) ∧
+    (Reading.reading v gz codec rb0 chunks).obs =
+      (packetOf f codec content ps :: (run v gz codec rest).1,
+       if (run v gz codec rest).2.1 = .more then none else some (run v gz codec rest).2.1) :=
+  WsReading.trailing_bytes_ws_vs_tcp v gz codec env f content ps hv h0 rest rb0 wf he chunks hc
+
+/-- two valid frames in one message: WebSocket delivers the first only, TCP both -/
+theorem two_frames_one_message (v : Ver) (gz : GzOracle) (codec : UInt8) (env : Env) (f g : Spec.Frame)
+    (cf cg : Bytes) (pf pg : List Metadata.Pair) (hf : ValidFrame v gz f cf pf) (hg : ValidFrame v gz g cg pg)
+    (h0 : f.verify ≠ 1) (rb0 : Ring) (wf : rb0.WF) (he : rb0.abs = [])
+    (chunks : List Bytes) (hc : chunks.flatten = Spec.encode v f ++ Spec.encode v g) :
+    (reading v gz codec env [.binary (Spec.encode v f ++ Spec.encode v g)]).obs = ([packetOf f codec cf pf], none) ∧
+    (Reading.reading v gz codec rb0 chunks).obs = ([packetOf f codec cf pf, packetOf g codec cg pg], none) :=
+  WsReading.two_frames_one_message v gz codec env f g cf cg pf pg hf hg h0 rb0 wf he chunks hc
+
+/-- with the verify bit set the bytes after the frame are appended to the delivered signature -/
+theorem trailing_bytes_into_signature (v : Ver) (gz : GzOracle) (codec : UInt8) (env : Env) (f : Spec.Frame) (content : Bytes)
+    (ps : List Metadata.Pair) (hv : ValidFrame v gz f content ps) (h1 : f.verify = 1) (rest : Bytes) :
+    (reading v gz codec env [.binary (Spec.encode v f ++ rest)]).obs =
+      ([{ packetOf f codec content ps with signature := f.sig ++ rest }], none) :=
+  WsReading.trailing_bytes_into_signature v gz codec env f content ps hv h1 rest
+
+/-- a frame split across two messages (or an empty first message) closes the WebSocket connection with nothing
+delivered; the same two pieces as two socket reads are reassembled on TCP -/
+theorem split_frame_ws_vs_tcp (v : Ver) (gz : GzOracle) (codec : UInt8) (env : Env) (f : Spec.Frame) (content : Bytes)
+    (ps : List Metadata.Pair) (hv : ValidFrame v gz f content ps) (k : Nat) (hk : k < (Spec.encode v f).length)
+    (rb0 : Ring) (wf : rb0.WF) (he : rb0.abs = []) :
+    (∃ e, (reading v gz codec env [.binary ((Spec.encode v f).take k), .binary ((Spec.encode v f).drop k)]).obs =
+      ([], some (.decode e))) ∧
+    (Reading.reading v gz codec rb0 [(Spec.encode v f).take k, (Spec.encode v f).drop k]).obs =
+      ([packetOf f codec content ps], none) :=
+  WsReading.split_frame_ws_vs_tcp v gz codec env f content ps hv k hk rb0 wf he
+
+/-- an empty message closes the WebSocket connection; an empty socket read is skipped -/
+theorem empty_message_ws_vs_tcp (v : Ver) (gz : GzOracle) (codec : UInt8) (env : Env) (pre post : List WsEvent)
+    (hopen : (reading v gz codec env pre).stopped = none)
+    (rb0 : Ring) (wf : rb0.WF) (he : rb0.abs = []) (c1 c2 : List Bytes) :
+    (reading v gz codec env (pre ++ .binary [] :: post)).obs =
+      ((reading v gz codec env pre).pkts, some (.decode "invalid frame")) ∧
+    (Reading.reading v gz codec rb0 (c1 ++ [] :: c2)).obs = (Reading.reading v gz codec rb0 (c1 ++ c2)).obs :=
+  WsReading.empty_message_ws_vs_tcp v gz codec env pre post hopen rb0 wf he c1 c2
+
+/-! ### non-vacuity and the differences, decided on the models
+v1, no gzip; the two frames of C03: push `03 07 000002 09 08`, request `41 05 00000102 0003 000001 01`.
+`hbId`: a stand-in for the protobuf field `heartbeat_id` (tag 0x10, one-byte varint); `closeBody`: a stand-in for
+`proto.Marshal(&control.Close{…})`; request ids 1, 2, … as `GetRequestIDGen` hands them out on a conn nobody else uses. -/
+
+private def gzN : GzOracle := ⟨fun _ => .err "none", fun _ => none⟩
+private def envK : Env :=
+  { hbId := fun b => match b with | [16, n] => some n.toUInt32 | _ => none
+    closeBody := fun code reason => .ok (8 :: UInt8.ofNat code :: 18 :: UInt8.ofNat reason.length :: reason)
+    reqId := fun k => UInt32.ofNat (k + 1)
+    pongOk := fun _ => true }
+/-- the same with `Handshake.Codec = 0`: `marshal` fails -/
+private def envCodec0 : Env := { envK with closeBody := fun _ _ => .err "invalid codec type: unknown" }
+/-- the same with a socket on which the pong cannot be written -/
+private def envNoPong : Env := { envK with pongOk := fun _ => false }
+
+private def fP : Bytes := [3, 7, 0, 0, 2, 9, 8]
+private def fR : Bytes := [65, 5, 0, 0, 1, 2, 0, 3, 0, 0, 1, 1]
+private def kP : Packet := { type := .push, cmd := 7, codec := 1, body := [9, 8] }
+private def kR : Packet := { type := .request, cmd := 5, rid := 258, timeout := 3, codec := 1, body := [1] }
+
+/-- one frame per message = the frames on the stream (cut inside the first length field and inside the second id) -/
+example : (reading .v1 gzN 1 envK [.binary fP, .text fR]).obs = ([kP, kR], none) := by decide
+example : (Reading.reading .v1 gzN 1 (Ring.new 8) [[3, 7, 0], [0, 2, 9, 8, 65, 5, 0], [0, 1, 2, 0, 3, 0, 0, 1, 1]]).obs =
+    ([kP, kR], none) := by decide
+
+/-- (1) frame + `00 01` in one message: dropped on WebSocket, connection stays; on TCP `00` is the next frame's type byte -/
+example : (reading .v1 gzN 1 envK [.binary (fP ++ [0, 1]), .binary fR]).obs = ([kP, kR], none) := by decide
+example : (Reading.reading .v1 gzN 1 (Ring.new 8) [fP ++ [0, 1], fR]).obs = ([kP], some (.err "invalid packet type")) := by
+  decide
+
+/-- (1') two frames in one message -/
+example : (reading .v1 gzN 1 envK [.binary (fP ++ fR)]).obs = ([kP], none) := by decide
+example : (Reading.reading .v1 gzN 1 (Ring.new 8) [fP ++ fR]).obs = ([kP, kR], none) := by decide
+
+/-- (2) verify bit set (`13 …`, nonce 5, signature 16 × AA) + `01 02 03`: a 19-byte signature is delivered -/
+example : (reading .v1 gzN 1 envK [.binary ([0x13, 7, 0, 0, 1, 9, 0, 0, 0, 0, 0, 0, 0, 5] ++ List.replicate 16 0xAA ++ [1, 2, 3])]).obs =
+    ([{ type := .push, cmd := 7, codec := 1, body := [9], verify := true, nonce := 5,
+        signature := List.replicate 16 0xAA ++ [1, 2, 3] }], none) := by decide
+
+/-- (3) the push frame split 3 + 4 -/
+example : (reading .v1 gzN 1 envK [.binary [3, 7, 0], .binary [0, 2, 9, 8], .binary fR]).obs =
+    ([], some (.decode "invalid frame")) := by decide
+example : (Reading.reading .v1 gzN 1 (Ring.new 8) [[3, 7, 0], [0, 2, 9, 8], fR]).obs = ([kP, kR], none) := by decide
+
+/-- (4) an empty message -/
+example : (reading .v1 gzN 1 envK [.binary fP, .binary [], .binary fR]).obs = ([kP], some (.decode "invalid frame")) := by decide
+example : (Reading.reading .v1 gzN 1 (Ring.new 8) [fP, [], fR]).obs = ([kP, kR], none) := by decide
+
+/-- (5) a peer heartbeat with id 77: request id 1 (drawn locally) over WebSocket, the pong written back; 77 over TCP
+(frame `01 01 0000004d 0000 000002 10 4d`) -/
+example : (reading .v1 gzN 1 envK [.ping [16, 77]]).obs =
+    ([{ type := .request, cmd := 1, rid := 1, codec := 1, body := [16, 77] }], none) ∧
+    (reading .v1 gzN 1 envK [.ping [16, 77]]).pongs = [[16, 77]] := by decide
+example : Spec.encode .v1 (hbReqFrame 77 [16, 77]) = [1, 1, 0, 0, 0, 77, 0, 0, 0, 0, 2, 16, 77] := by decide
+example : (Reading.reading .v1 gzN 1 (Ring.new 8) [[1, 1, 0, 0, 0, 77, 0, 0, 0, 0, 2, 16, 77]]).obs =
+    ([{ type := .request, cmd := 1, rid := 77, codec := 1, body := [16, 77] }], none) := by decide
+/-- … the second ping gets id 2 -/
+example : ((reading .v1 gzN 1 envK [.ping [16, 77], .binary fP, .ping []]).pkts.map (·.rid)) = [1, 0, 2] := by decide
+/-- … and when the pong cannot be written: no packet, the reader ends -/
+example : (reading .v1 gzN 1 envNoPong [.binary fP, .ping [16, 77], .binary fR]).obs = ([kP], some .pongWrite) := by decide
+
+/-- (6) answers to heartbeats: id from the payload, 0 when there is none; status 0. Over TCP the header's
+(frame `02 01 00000009 03 000002 10 05`: id 9, status 3, body with id 5) -/
+example : (reading .v1 gzN 1 envK [.pong [16, 5], .pong [255, 255], .pong []]).obs =
+    ([{ type := .response, cmd := 1, rid := 5, codec := 1, body := [16, 5] },
+      { type := .response, cmd := 1, rid := 0, codec := 1, body := [255, 255] },
+      { type := .response, cmd := 1, rid := 0, codec := 1, body := [] }], none) := by decide
+example : (Reading.reading .v1 gzN 1 (Ring.new 8) [[2, 1, 0, 0, 0, 9, 3, 0, 0, 2, 16, 5]]).obs =
+    ([{ type := .response, cmd := 1, rid := 9, status := 3, codec := 1, body := [16, 5] }], none) := by decide
+
+/-- (7) close(232, "bye") then a push: the same close packet; the WebSocket reader has ended, the TCP reader reads on -/
+example : (reading .v1 gzN 1 envK [.close 232 [98, 121, 101], .binary fP]).obs =
+    ([{ type := .push, cmd := 0, codec := 1, body := [8, 232, 18, 3, 98, 121, 101] }],
+     some (.peerClose 232 [98, 121, 101])) := by decide
+example : (Reading.reading .v1 gzN 1 (Ring.new 8) [[3, 0, 0, 0, 7, 8, 232, 18, 3, 98, 121, 101], fP]).obs =
+    ([{ type := .push, cmd := 0, codec := 1, body := [8, 232, 18, 3, 98, 121, 101] }, kP], none) := by decide
+
+/-- (8) `Handshake.Codec = 0`: a close frame from the peer panics the reader goroutine -/
+example : (reading .v1 gzN 0 envCodec0 [.binary fP, .close 1000 []]).obs =
+    ([{ kP with codec := 0 }], some (.panic "invalid codec type: unknown")) := by decide
+example : (reading .v1 gzN 0 envCodec0 [.binary fP, .close 1000 []]).verdict = .panic "invalid codec type: unknown" := by decide
+
+/-- a read error ends the reader; what was delivered stays delivered -/
+example : (reading .v1 gzN 1 envK [.binary fP, .readError, .binary fR]).obs = ([kP], some .readErr) := by decide
+
+/-- the script theorem applies: data, peer heartbeat, answer, data -/
+example : ∀ i ∈ [Item.hbReq 77 [16, 77], .hbResp 9 3 [16, 5]], i.Ok .v1 gzN := by
+  intro i hi
+  simp only [List.mem_cons, List.not_mem_nil, or_false] at hi
+  rcases hi with rfl | rfl <;> simp [Item.Ok]
 
 end OAP.C20
